@@ -24,7 +24,7 @@ def run(ctx):
     drv = common.LeanDriver()
     reqs, metas = [], []
     # --- the core estimator on arbitrary digraphs
-    for _ in range(ctx.scale(400, 5000)):
+    for _ in range(ctx.scale(1200, 6000)):
         r = ctx.rng
         kind = r.random()
         if kind < 0.1:
@@ -56,7 +56,7 @@ def run(ctx):
         metas.append((rep, (pe, ar), None))
         ctx.count("dir_perc:edges=%s" % ("0" if H.number_of_edges() == 0 else ">0"))
     # --- wrappers
-    for _ in range(ctx.scale(200, 2500)):
+    for _ in range(ctx.scale(500, 3000)):
         r = ctx.rng
         which = r.choice(["bond", "directed", "timing", "xi_zeta"])
         c = sims.graph_case(r, 1, 8)
